@@ -489,6 +489,9 @@ def run(rep, programs):
     r_send_sync(rep, prog)
     from props import c17
     c17.r_nvm_layout(rep, prog)
+    # base and length of the slices handed back by the `unsafe fn metadata` family (cited by the ledger)
+    from props import c07
+    c07.r_meta_roundtrip(rep, prog)
     # Locals: offsets advance by the size of the slice they describe
     b = lib.need_body(prog, "llfree::local::Locals::new")
     tm = T.Terms(b, prog)
